@@ -2,9 +2,36 @@
 
 package codescan
 
+import "go/ast"
+
 // Read-only accessors for the verification harness (build tag `verif`). Nothing here is compiled into a normal build.
 
 // VerifRemoveIndent exposes removeIndent (works on a copy of its argument).
 func VerifRemoveIndent(lines []string) []string {
 	return removeIndent(append([]string{}, lines...))
+}
+
+// VerifSchemes runs the real `Schemes:` tagger on one comment line. It returns whether rxSchemes matched, the group the
+// regexp captured (what setSchemes.Parse splits) and the schemes handed to the setter (nil when the setter was not called).
+func VerifSchemes(line string) (matched bool, capture string, schemes []string) {
+	ss := newSetSchemes(func(s []string) { schemes = append([]string{}, s...) })
+	if m := ss.rx.FindStringSubmatch(line); len(m) > 1 {
+		matched, capture = true, m[1]
+	}
+	_ = ss.Parse([]string{line})
+	return
+}
+
+// VerifPathAnnotation runs the real parsePathAnnotation on one swagger:route (route=true) or swagger:operation line. It
+// returns whether the annotation matched, the tag group the regexp captured, and the parsed method, path, id and tags.
+func VerifPathAnnotation(route bool, line string) (matched bool, capture, method, path, id string, tags []string) {
+	rx := rxOperation
+	if route {
+		rx = rxRoute
+	}
+	if m := rx.FindStringSubmatch(line); len(m) > 3 {
+		matched, capture = true, m[3]
+	}
+	cnt := parsePathAnnotation(rx, []*ast.Comment{{Text: line}})
+	return matched, capture, cnt.Method, cnt.Path, cnt.ID, cnt.Tags
 }
